@@ -775,3 +775,90 @@ def required_await(run, rid, unit, what_pred, before_pred, what, before, slot):
     ok = bool(ys) and all(any(g.dominates(y, b) for y in ys) for b in bs)
     run.ob(rid, unit, (ys[0].ast if ys else unit.node), '%s is awaited before %s' % (what, before), ok, slot=slot,
            message='%s does not wait for %s before %s' % (unit.short, what, before))
+
+
+
+# ------------------------------------------------------------ a tiny token interpreter for small pure functions
+class MiniUndecided(Exception):
+    pass
+
+
+def mini_interp(fn_node, leaf, max_steps=200):
+    """Evaluate a small function over *tokens*: leaf(expr) maps an expression to a token (any hashable; the string 'NONE' is None,
+    falsy tokens are listed in mini_interp.FALSY) or returns None for "not a leaf".  Supports assignment to names, if/elif/else,
+    conditional expressions, and/or/not, `is (not) None`, ==/!= between tokens, return.  Anything else raises MiniUndecided.
+    Returns the token returned ('NONE' when the function falls off its end)."""
+    env = {}
+    FALSY = ('NONE', 'FALSE', 'EMPTY')
+
+    def ev(e):
+        t = leaf(e)
+        if t is not None:
+            return t
+        if isinstance(e, ast.Constant):
+            if e.value is None:
+                return 'NONE'
+            if e.value is False:
+                return 'FALSE'
+            if e.value is True:
+                return 'TRUE'
+            return ('const', e.value)
+        if isinstance(e, ast.Name):
+            if e.id in env:
+                return env[e.id]
+            raise MiniUndecided('name %s' % e.id)
+        if isinstance(e, ast.IfExp):
+            return ev(e.body) if truth(ev(e.test)) else ev(e.orelse)
+        if isinstance(e, ast.UnaryOp) and isinstance(e.op, ast.Not):
+            return 'FALSE' if truth(ev(e.operand)) else 'TRUE'
+        if isinstance(e, ast.BoolOp):
+            v = None
+            for x in e.values:
+                v = ev(x)
+                if isinstance(e.op, ast.And) and not truth(v):
+                    return v
+                if isinstance(e.op, ast.Or) and truth(v):
+                    return v
+            return v
+        if isinstance(e, ast.Compare) and len(e.ops) == 1:
+            a, b = ev(e.left), ev(e.comparators[0])
+            op = e.ops[0]
+            if isinstance(op, (ast.Is, ast.Eq)):
+                return 'TRUE' if a == b else 'FALSE'
+            if isinstance(op, (ast.IsNot, ast.NotEq)):
+                return 'FALSE' if a == b else 'TRUE'
+        raise MiniUndecided(src(e)[:60])
+
+    def truth(t):
+        return t not in FALSY
+
+    class _Ret(Exception):
+        pass
+
+    steps = [0]
+
+    def run_block(stmts):
+        for st in stmts:
+            steps[0] += 1
+            if steps[0] > max_steps:
+                raise MiniUndecided('too long')
+            if isinstance(st, ast.Expr) and isinstance(st.value, ast.Constant):
+                continue
+            if isinstance(st, ast.Pass):
+                continue
+            if isinstance(st, ast.Return):
+                r = _Ret()
+                r.value = ev(st.value) if st.value is not None else 'NONE'
+                raise r
+            if isinstance(st, ast.Assign) and len(st.targets) == 1 and isinstance(st.targets[0], ast.Name):
+                env[st.targets[0].id] = ev(st.value)
+                continue
+            if isinstance(st, ast.If):
+                run_block(st.body if truth(ev(st.test)) else st.orelse)
+                continue
+            raise MiniUndecided(src(st)[:60])
+    try:
+        run_block(fn_node.body)
+    except _Ret as r:
+        return r.value
+    return 'NONE'
